@@ -169,7 +169,12 @@ def do_replay(mod, pid, path):
     if not ph:
         print('HARNESS-ERROR: no phase %r' % body['phase'])
         return 2
-    ctx = explore.replay(ph[0], body['choices'], tier)
+    import sys
+    real_out = sys.stdout          # the phase's setup may replace sys.stdout in this process
+    try:
+        ctx = explore.replay(ph[0], body['choices'], tier)
+    finally:
+        sys.stdout = real_out
     known = load_known(pid)
     bad = 0
     for l in ctx.log[-40:]:
